@@ -1,0 +1,27 @@
+//go:build verif
+
+package scion
+
+// Hooks for the verification harness in /verif (build tag "verif" only).
+// Nothing here changes the behaviour of the package; without the tag this
+// file is not compiled.
+
+import (
+	"context"
+	"log/slog"
+
+	"github.com/scionproto/scion/pkg/addr"
+	"github.com/scionproto/scion/pkg/daemon"
+)
+
+// VerifNewPather returns a Pather as StartPather creates it, before its first
+// update and without the refresh goroutine.
+func VerifNewPather(log *slog.Logger) *Pather {
+	return &Pather{log: log}
+}
+
+// VerifUpdate runs one refresh of p (the function StartPather calls at once
+// and then every pathRefreshPeriod) against the given daemon connector.
+func VerifUpdate(ctx context.Context, p *Pather, dc daemon.Connector, dstIAs []addr.IA) {
+	update(ctx, p, dc, dstIAs)
+}
